@@ -70,15 +70,34 @@ package ruleset
 //@ requires r != nil
 //@ ensures result != nil && fresh(result) && result.include == r.include && result.exclude == r.exclude && result.inverse == !r.inverse
 
-// NewRegexpMatcherFromList: items are routed by their flag (the partition facts
-// "every item is in exactly one list" need witness terms the solvers do not
-// find on their own and are not claimed; see DESIGN.md).
+// NewRegexpMatcherFromList (L17.1, partition): every item lands in the list its
+// flag names - an include item is one of the include rules, an exclude item one
+// of the exclude rules - and neither list holds anything else.
+// Witnesses are explicit ghost maps maintained per iteration (no existential):
+// posOf(j) is where item j went, srcInc(k)/srcExc(k) where rule k came from.
+//@ ghost var posOf(int) int
+//@ ghost var srcInc(int) int
+//@ ghost var srcExc(int) int
 //@ func NewRegexpMatcherFromList
 //@ property C17
 //@ requires forall j int :: 0 <= j && j < len(l) ==> l[j].Regexp != nil
-//@ modifies sbStr, elems(*regexp.Regexp)
+//@ modifies sbStr, elems(*regexp.Regexp), posOf, srcInc, srcExc
 //@ ensures result1 == nil ==> result0 != nil && !result0.inverse && result0.include != nil
+//@ ensures result1 == nil ==> forall x string, j int {reMatch(l[j].Regexp, x)} :: 0 <= j && j < len(l) && !l[j].Exclude && reMatch(l[j].Regexp, x) ==> reMatch(result0.include, x)
+//@ ensures result1 == nil ==> forall x string, j int {reMatch(l[j].Regexp, x)} :: 0 <= j && j < len(l) && l[j].Exclude && reMatch(l[j].Regexp, x) ==> result0.exclude != nil && reMatch(result0.exclude, x)
+//@ ensures result1 == nil ==> forall x string {reMatch(result0.include, x)} :: reMatch(result0.include, x) ==> exists j int :: 0 <= j && j < len(l) && !l[j].Exclude && reMatch(l[j].Regexp, x)
+//@ ensures result1 == nil ==> forall x string {reMatch(result0.exclude, x)} :: result0.exclude != nil && reMatch(result0.exclude, x) ==> exists j int :: 0 <= j && j < len(l) && l[j].Exclude && reMatch(l[j].Regexp, x)
 //@ loop 0:
+//@   ghostset posOf(rangeindex) := ite(l[rangeindex].Exclude, len(exclude) - 1, len(include) - 1)
+//@   ghostset srcInc(ite(l[rangeindex].Exclude, -1, len(include) - 1)) := rangeindex
+//@   ghostset srcExc(ite(l[rangeindex].Exclude, len(exclude) - 1, -1)) := rangeindex
 //@   invariant forall j int :: 0 <= j && j < len(include) ==> include[j] != nil
 //@   invariant forall j int :: 0 <= j && j < len(exclude) ==> exclude[j] != nil
 //@   invariant forall j int :: 0 <= j && j < len(l) ==> l[j].Regexp != nil
+//@   invariant forall j int {l[j].Regexp} {posOf(j)} :: 0 <= j && j <= rangeindex && !l[j].Exclude ==> 0 <= posOf(j) && posOf(j) < len(include) && include[posOf(j)] == l[j].Regexp
+//@   invariant forall j int {l[j].Regexp} {posOf(j)} :: 0 <= j && j <= rangeindex && l[j].Exclude ==> 0 <= posOf(j) && posOf(j) < len(exclude) && exclude[posOf(j)] == l[j].Regexp
+//@   invariant forall k int {include[k]} {srcInc(k)} :: 0 <= k && k < len(include) ==> 0 <= srcInc(k) && srcInc(k) <= rangeindex && !l[srcInc(k)].Exclude && l[srcInc(k)].Regexp == include[k]
+//@   invariant forall k int {exclude[k]} {srcExc(k)} :: 0 <= k && k < len(exclude) ==> 0 <= srcExc(k) && srcExc(k) <= rangeindex && l[srcExc(k)].Exclude && l[srcExc(k)].Regexp == exclude[k]
+//@   invariant (len(include) == 0 ==> cap(include) == 0) && (len(exclude) == 0 ==> cap(exclude) == 0)
+//@   invariant (len(include) > 0 ==> allocated(base(include))) && (len(exclude) > 0 ==> allocated(base(exclude)))
+//@   invariant len(include) > 0 && len(exclude) > 0 ==> base(include) != base(exclude)
